@@ -88,6 +88,11 @@ RCP<const DiagonalMatrix> mul_diag_diag(const DiagonalMatrix &A,
 {
     auto Avec = A.get_container();
     auto Bvec = B.get_container();
+    // adjacent factors are only compared by check_matching_mul_sizes; an
+    // identity matrix of symbolic size dropped in between hides a mismatch
+    if (Avec.size() != Bvec.size()) {
+        throw DomainError("Matrix dimension mismatch");
+    }
     vec_basic product(Avec.size());
 
     for (size_t i = 0; i < Avec.size(); i++) {
@@ -102,6 +107,9 @@ RCP<const ImmutableDenseMatrix> mul_dense_dense(const ImmutableDenseMatrix &A,
 {
     size_t nrows = A.nrows();
     size_t ncols = B.ncols();
+    if (A.ncols() != B.nrows()) {
+        throw DomainError("Matrix dimension mismatch");
+    }
     auto Avec = A.get_values();
     auto Bvec = B.get_values();
     vec_basic product(nrows * ncols);
@@ -124,6 +132,9 @@ RCP<const ImmutableDenseMatrix> mul_diag_dense(const DiagonalMatrix &A,
 {
     size_t nrows = B.nrows();
     size_t ncols = B.ncols();
+    if (A.get_container().size() != nrows) {
+        throw DomainError("Matrix dimension mismatch");
+    }
 
     vec_basic product(B.get_values());
 
@@ -141,6 +152,9 @@ RCP<const ImmutableDenseMatrix> mul_dense_diag(const ImmutableDenseMatrix &A,
 {
     size_t nrows = A.nrows();
     size_t ncols = A.ncols();
+    if (B.get_container().size() != ncols) {
+        throw DomainError("Matrix dimension mismatch");
+    }
 
     vec_basic product(A.get_values());
 
